@@ -124,3 +124,64 @@ func VH_C07_send_windows() {
 	vAssert(exp.shutdowns == 1, "C07.window.export-released-exactly-once")
 	vAssert(boot.shutdowns == 1, "C07.window.bootstrap-capability-released-exactly-once")
 }
+
+// Embargo (C06 ordering clause): calls made on an embargoed capability wait until the Disembargo
+// comes back - none reaches the target before - and are then delivered; a call whose context is
+// cancelled while embargoed fails without ever reaching the target; after the lift calls go straight
+// through; releasing the embargoed client releases the target exactly once.
+func VH_C06_embargo_holds_calls() {
+	t := &vTransport{}
+	c := vNewConn(t, nil)
+	tgt := &vRecvHook{sync: true}
+	target := capnp.NewClient(tgt)
+	c.mu.Lock()
+	id, ec := c.embargo(target)
+	c.mu.Unlock()
+	vAssert(c.findEmbargo(id) != nil, "C06.embargo.entry-recorded")
+	sent, cancelledDone := 0, false
+	go func() {
+		_, rel := ec.SendCall(context.Background(), capnpSend(false))
+		rel()
+		sent++
+	}()
+	cctx, cancel := context.WithCancel(context.Background())
+	go func() {
+		ans, rel := ec.SendCall(cctx, capnpSend(false))
+		_, err := ans.Struct()
+		vAssert(err != nil, "C06.embargo.cancelled-call-fails")
+		rel()
+		cancelledDone = true
+	}()
+	vSettle()
+	vReach("embargoed")
+	vAssert(tgt.recvs == 0 && sent == 0, "C06.embargo.no-call-passes-before-the-disembargo")
+	cancel()
+	vSettle()
+	vAssert(cancelledDone && tgt.recvs == 0, "C06.embargo.cancelled-call-never-reaches-the-target")
+	// the Disembargo arrives (receiverLoopback with this id)
+	m := vRecvMsg()
+	d, err := m.NewDisembargo()
+	vAssume(err == nil)
+	d.Context().SetReceiverLoopback(uint32(id))
+	dt, err := d.NewTarget()
+	vAssume(err == nil)
+	dt.SetImportedCap(0)
+	herr := c.handleDisembargo(c.bgctx, d)
+	vSettle()
+	vReach("lifted")
+	vAssert(herr == nil, "C06.embargo.disembargo-accepted")
+	vAssert(sent == 1, "C06.embargo.held-call-delivered-after-the-lift")
+	vAssert(c.findEmbargo(id) == nil, "C06.embargo.entry-removed")
+	vQuiescent(c, "C06.embargo")
+	before := tgt.recvs + tgt.shutdowns
+	_, rel := ec.SendCall(context.Background(), capnpSend(false))
+	rel()
+	_ = before
+	vAssert(tgt.shutdowns == 0, "C06.embargo.target-alive-while-referenced")
+	ec.Release()
+	vAssert(tgt.shutdowns == 1, "C06.embargo.target-released-exactly-once")
+	// a second Disembargo for the same id is a protocol error, not a crash
+	herr = c.handleDisembargo(c.bgctx, d)
+	vAssert(herr != nil, "C06.embargo.unknown-id-is-a-protocol-error")
+	vQuiescent(c, "C06.embargo.second")
+}
